@@ -37,6 +37,7 @@ type StrV struct {
 	B      []*Term // 8-bit terms
 	Opaque bool    // content unknown (result of formatting); B is empty
 	OLen   *Term   // symbolic length of an opaque string (64-bit)
+	Empty  *Term   // for opaque strings from table lookups: condition under which the string is ""
 }
 
 type StructV struct{ F []Value }
